@@ -173,15 +173,23 @@ func (root *Root) resolve(
 		// will be nil so check for a @go directive then a type argument that
 		// matches the object type. If there is a match then set the meta.
 		objType := reflect.TypeOf(obj)
+		var unbound error
 		for _, m := range tt.Members {
 			if ot, _ := m.(*Object); ot != nil { // already checked in validation
 				if meta, err := ot.metaCheck(objType); err != nil {
-					return nil, []error{err}
+					// Not this member, a later one can still match.
+					if unbound == nil {
+						unbound = err
+					}
 				} else if objType == meta {
 					result, ea = root.resolveFieldSels(obj, vars, field, m, depth-1)
+					unbound = nil
 					break
 				}
 			}
+		}
+		if unbound != nil {
+			return nil, []error{unbound}
 		}
 	default:
 		// Validation makes sure all output types are valid so no need to
